@@ -70,6 +70,21 @@ func vxL005(n int) {
 	lintcheck.Rule("C17.L005", NewRedundantWhitespaceRule(), in)
 }
 
+// word slots: literals and quoted identifiers that contain a comment marker, real comments, runs of
+// blanks (byte-level bounds never reach a literal, a comment and a run of blanks on one line)
+var vxL005Slots = []string{"a", " ", "  ", "'--'", "\"--\"", "--", "\n", "'"}
+
+func vxL005Words(n int) {
+	k := vx.Choice(n + 1)
+	in := ""
+	for j := 0; j < k; j++ {
+		in += vxL005Slots[vx.Choice(len(vxL005Slots))]
+	}
+	lintcheck.Rule("C17.L005", NewRedundantWhitespaceRule(), in)
+}
+
+func VxC17_L005_Words4() { vxL005Words(4) }
+func VxC17_L005_Words5() { vxL005Words(5) }
 func VxC17_L001_4() { vxL001(4) }
 func VxC17_L001_5() { vxL001(5) }
 func VxC17_L002_4() { vxL002(4) }
